@@ -102,7 +102,7 @@ def run(ctx):
         (3, 2, 3, 3) if ctx.quick else (5, 3, 6, 4))
     ctx.rule = ('one case = (graph class, start, table, mode, message): the real strand must equal the strand of an independent '
                 'integer-arithmetic reference coder character for character; or one (class, start, table, walk): decode at the '
-                'minimal fitting width and +2 must render the Horner value big-endian (fast mode: the carried bits); states = cases')
+                'minimal fitting width and +2 must render the Horner value big-endian (fast mode: the carried bits); states = cases; non-trivial = message with a 1 bit / walk of non-zero value')
     ctx.assumptions = ['reference coder mc/oracle.py:ref_encode/ref_value implements the published scheme as the statement words it',
                        'same table layers as C01']
     ctx.guard('well-formed classes explored', ctx.res.ctr['g1_wellformed'] > 100000)
